@@ -30,7 +30,8 @@ def run(ctx):
                 k += 1
                 sig = json.loads(line)["V"]["sig"]
                 protocol = len(sig) > 50 or sig == [123, 115, 109, 125]   # MetaObject .. ServiceInfo, {sm}
-                if k % 40 != 0 and not protocol:
+                scalar = len(sig) == 1          # top-level scalars: the only vectors type/basic decodes
+                if k % 40 != 0 and not protocol and not (scalar and k % 3 == 0):
                     continue
             g.write(line)
     st = ctx.harness_json("codec", ["c08", head], timeout=900, env={"VERIF_C08_SELFTEST": "1"})
